@@ -24,6 +24,11 @@ import vf
 # bin/mutant runs).
 READY = True
 SERVES = {
+    "C22": dict(
+        technique="TLA+ spec OpFees.tla with the chain configuration flag reward = FALSE (handler built by Handler::optimism_with_spec(spec, false)), model-checked by TLC (invariant NoRewardNoCredit: beneficiary and the base-fee / L1-fee / operator-fee vaults never receive anything; action property: the sender's debit is what it is with rewards enabled) and every (state, transaction) edge replayed on the real Optimism Evm (spec->impl conformance)",
+        level="Optimism half of C22: every edge of OpFees.tla within 2 transactions for reward-disabled configurations of Bedrock, Ecotone and Isthmus (thorough: all 8 Optimism forks) plus one reward-enabled control, over the quick transaction alphabet (regular legacy / EIP-1559 transactions of every callee outcome, rejected ones, deposits with and without mint, system deposits); balances of sender, recipient, beneficiary and the three vaults, nonce and outcome compared after every transaction.",
+        note="Trusted: OpFees.tla; harness/src/bin/opfees.rs. Reconfiguration sequences (hardfork change, handler registers) are decided on the mainnet handler by the HandlerCfg engine; here the handler is built once per history.",
+        ref="DESIGN.md section 3, C22 and C33"),
     "C33": dict(
         technique="TLA+ spec OpFees.tla (deposit / system deposit / regular transaction over the balances of sender, recipient, "
                   "beneficiary, base-fee vault, L1-fee vault, operator-fee vault and the sender nonce) model-checked by TLC; every "
@@ -57,7 +62,7 @@ SERVES = {
         ref="DESIGN.md section 3, C33"),
 }
 
-INV = ["NonNegative", "SupplyIsInitialPlusMints", "NoOperatorFeeBeforeIsthmus"]
+INV = ["NonNegative", "SupplyIsInitialPlusMints", "NoOperatorFeeBeforeIsthmus", "NoRewardNoCredit"]
 PROPS = ["RegularConservation", "DepositMintsExactly", "RejectedChangesNothing"]
 FORKS = ["BEDROCK", "REGOLITH", "CANYON", "ECOTONE", "FJORD", "GRANITE", "HOLOCENE", "ISTHMUS"]
 PRE_REGOLITH = {"BEDROCK"}
@@ -80,11 +85,11 @@ def tla(v):
     raise TypeError(v)
 
 
-def config(fork, l1, opfee, system_post_regolith=False):
+def config(fork, l1, opfee, system_post_regolith=False, reward=True):
     kinds = {"regular", "deposit"}
     if fork in PRE_REGOLITH or system_post_regolith:
         kinds.add("system")
-    return dict(fork=fork, kinds=kinds, l1=l1, opfee=opfee)
+    return dict(fork=fork, kinds=kinds, l1=l1, opfee=opfee, reward=reward)
 
 
 class Alphabet:
@@ -165,6 +170,8 @@ def abstract_run(ctx, res):
     cfgs = [config(f, l1, dict(n=3, d=2, c=1)) for f in ("BEDROCK", "REGOLITH", "ECOTONE", "FJORD", "ISTHMUS")]
     cfgs.append(config("ECOTONE", dict(l1, empty=True), dict(n=3, d=2, c=1)))
     cfgs.append(config("ISTHMUS", l1, dict(n=7, d=4, c=0), system_post_regolith=True))
+    cfgs.append(config("ISTHMUS", l1, dict(n=3, d=2, c=1), reward=False))
+    cfgs.append(config("BEDROCK", l1, dict(n=3, d=2, c=1), reward=False))
     initbal, basefee = 3000, 2
     ops = alphabet("full", basefee=basefee, v=7, m=9, near=initbal - 4 * (basefee + 2) - 2, over=initbal + 9 + 1)
     consts = dict(Configs=tla(cfgs), InitBal=initbal, BaseFee=basefee, GasLimit=4,
@@ -227,6 +234,22 @@ def run(ctx, pid):
                 "(fork x L1 parameters x operator-fee parameters), execution facts bound to the recorded ones; distinct = "
                 "distinct edges; plus the abstract-facts model on the specification alone")
     binary = vf.cargo_build("opfees", features="optimism")
+    if pid == "C22":
+        # the Optimism half of C22: handlers built with beneficiary rewards disabled, on every fork family
+        initbal, basefee, gaslimit, v, m = 10 ** 9, 2, 100000, 1000, 5000
+        common = dict(initbal=initbal, basefee=basefee, gaslimit=gaslimit, envs=[dict(z=2, nz=3), dict(z=20, nz=200)])
+        near = initbal - gaslimit * (basefee + 2) - 50
+        over = initbal + m + 1
+        l1 = dict(basefee=7, overhead=188, sn=3, sd=2, blobfee=5, bn=5, empty=False)
+        of = dict(n=3, d=2, c=11)
+        forks = ["BEDROCK", "ECOTONE", "ISTHMUS"] if ctx.quick else FORKS
+        cfgs = [config(f, l1, of, reward=False) for f in forks] + [config("ISTHMUS", l1, of, reward=True)]
+        conformance(ctx, res, binary, "opfees_noreward", cfgs, alphabet("quick", basefee=basefee, v=v, m=m, near=near, over=over),
+                    common, 2, keyprefix="opfees.noreward")
+        res.exhaustive = True
+        res.assumptions += ["rewards are disabled through Handler::optimism_with_spec(spec, false) + EvmBuilder::with_handler",
+                            "execution facts (gas used, refund; from Fjord the L1 fee) are inputs recorded from the real execution"]
+        return res
     abstract_run(ctx, res)
 
     spr = os.environ.get("OPFEES_SYSTEM_POST_REGOLITH") == "1"
